@@ -192,6 +192,7 @@ def generate(rng, tier):
     for h in hdrs:
         for L in (0, 1, 10):
             cases.append("C07 hdr %s %s" % (hx(body_of(L, 4)), hx(h)))
+            cases.append("C07 hdrf %s %s %d" % (hx(body_of(L, 4)), hx(h), rng.choice([0, 0, 2])))
     for _ in range(200 if tier == "thorough" else 60):
         n = rng.randrange(1, 4)
         items = []
@@ -211,6 +212,8 @@ def to_model(case):
         return ["C07 buf %s %s" % (t[2], t[3])]
     if t[1] in ("bufs", "bufu"):
         return []          # judged by the oracle only
+    if t[1] == "hdrf":
+        return ["C07 hdr %s %s" % (t[2], t[3])]      # the model answers for the representation, however it is delivered
     if t[1] in ("fileb", "filer"):
         return ["C07 file %s %s 1 1 %s" % (t[2], t[3], t[4])]
     if t[1] == "filep":
@@ -234,6 +237,19 @@ def get_app():
         @_app.route("/r")
         def r(req):
             res = Response(req.environ["verif.body"])
+            ranges = {}
+            if "Range" in req.headers:
+                ranges = parse_range(req.headers["Range"])
+            res.make_partial(ranges.get("bytes", None))
+            return res
+
+        @_app.route("/rf")
+        def rf(req):
+            # a file object, served by a server that offers wsgi.file_wrapper; `verif.off` bytes are not part of it
+            from poorwsgi.response import FileObjResponse
+            f = io.BytesIO(b"#" * req.environ["verif.off"] + req.environ["verif.body"])
+            f.seek(req.environ["verif.off"])
+            res = FileObjResponse(f)
             ranges = {}
             if "Range" in req.headers:
                 ranges = parse_range(req.headers["Range"])
@@ -315,12 +331,15 @@ def build(case):
 
 def observe_full(case):
     t = case.split()
-    if t[1] == "hdr":
+    if t[1] in ("hdr", "hdrf"):
         body = unhx(t[2])
         hdr = unhx(t[3]).decode()
         env = {"REQUEST_METHOD": "GET", "PATH_INFO": "/r", "SERVER_NAME": "t", "SERVER_PORT": "80",
                "SERVER_PROTOCOL": "HTTP/1.1", "wsgi.url_scheme": "http", "wsgi.input": io.BytesIO(b""),
                "wsgi.errors": io.StringIO(), "HTTP_RANGE": hdr, "verif.body": body}
+        if t[1] == "hdrf":
+            env.update({"PATH_INFO": "/rf", "verif.off": int(t[4]),
+                        "wsgi.file_wrapper": lambda f, bs=3: iter(lambda: f.read(bs), b"")})
         calls = []
         it = get_app()(env, lambda s, h: calls.append((s, h)))
         out = b"".join(it)
@@ -374,7 +393,7 @@ def oracle(case):
         calls, out, rep, ranges = observe_full(case)
     except Exception as err:
         return [Violation("range-exception", case, "emitting the response raised %r" % (err,))]
-    if t[1] == "hdr":
+    if t[1] in ("hdr", "hdrf"):
         hdr = unhx(t[3]).decode()
         ranges = lib_free_parse(hdr)
         if ranges is None:       # not a well-formed bytes range set: nothing to demand beyond C01
